@@ -68,6 +68,14 @@ def sym_obj(eng, spec, name, alpha, kalpha=6):
         return fresh_pay(eng, name, spec[1], 'int', alpha)
     if k == 's':
         return fresh_pay(eng, name, spec[1], 'str', alpha)
+    if k == 'sc':           # string over an explicit character set, e.g. ('sc', 2, 'ab"\\')
+        p = fresh_pay(eng, name, spec[1], 'str', 1)
+        cs = []
+        for i in range(spec[1]):
+            v = eng.fresh_int(f"{name}_c{i}")
+            eng.assume(z3.Or(*[v.e == ord(ch) for ch in spec[2]]))
+            cs.append(v.e)
+        return Pay(cs, name, 'str')
     if k == 'b':
         return bool(spec[1])
     if k == 'n':
@@ -84,8 +92,10 @@ def sym_obj(eng, spec, name, alpha, kalpha=6):
         return m
     if k == 'dict':
         # key alphabet >= number of keys of both mappings, so that 'no key shared' .. 'all keys shared' are all realisable
-        keys = [leaves.pay_of_text(kl) if builtins.isinstance(kl, str) else fresh_pay(eng, f"{name}k{i}", kl, 'str', kalpha)
-                for i, (kl, _) in enumerate(spec[1])]      # a str key spec is a concrete key
+        keys = [leaves.pay_of_text(kl) if builtins.isinstance(kl, str) else
+                (sym_obj(eng, kl, f"{name}k{i}", alpha, kalpha) if builtins.isinstance(kl, tuple) else
+                 fresh_pay(eng, f"{name}k{i}", kl, 'str', kalpha))
+                for i, (kl, _) in enumerate(spec[1])]      # a str key spec is a concrete key, a tuple a leaf spec
         for x, y in itertools.combinations(keys, 2):
             r = (x == y)
             eng.assume(z3.Not(r.e) if builtins.isinstance(r, SBool) else (not r))
@@ -569,6 +579,8 @@ REAL_ERRORS = (AssertionError, AttributeError, TypeError, ValueError, IndexError
 # ------------------------------------------------------------------ generic job driver
 def max_keys(spec):
     k = spec[0]
+    if k == 'sc':
+        return 0
     if k == 'dict':
         return max([len(spec[1])] + [max_keys(v) for _, v in spec[1]])
     if k in ('list', 'mset'):
